@@ -45,16 +45,28 @@ def is_position(e, f=None):
 
         if kinds.kind(f, e) == kinds.PHYS:
             return "a physical position (%s)" % mir.fmt(e, f)[:40]
-    for s in mir.walk(e):
+    def rec(s):
         if not isinstance(s, tuple) or not s:
-            continue
+            return None
+        if s[0] == "pcall" and str(s[1]).split("::")[-1] == "min" and len(s) > 2 and len(s[2]) == 2:
+            # the smaller of two values is at most each of them: it is position-sized only if both are (a chunk length
+            # `min(slice_len - offset, left_to_move)` is bounded by the count, whatever the offset)
+            rs = [rec(x) for x in s[2]]
+            return rs[0] if all(rs) else None
         if s[0] == "load" and s[2] and s[2][-1] in ("start", "offset"):
             return "load of `%s`" % s[2][-1]
         if s[0] == "field" and s[2] == "offset":
             return "field `offset`"
         if s[0] == "call" and s[1] in POSITION_FNS:
             return "result of %s" % s[1]
-    return None
+        for x in s:
+            if isinstance(x, tuple):
+                r = rec(x)
+                if r:
+                    return r
+        return None
+
+    return rec(e)
 
 
 def is_length(e):
